@@ -244,6 +244,14 @@ func (s *Script) TxsFor(i int, rctx sdk.Context) []Tx {
 		for _, v := range w.Vals {
 			add(v.Actor, govv1.NewMsgVote(v.Addr, 1, govv1.OptionYes, ""))
 		}
+	case 140:
+		// late in the history the quiet chain gets its first contract call: by now one validator has no
+		// relayer fee there (its upsert in block 6 named the first chain only) but does have metrics
+		def, _ := json.Marshal(evmtypes.JobDefinition{Address: "0x00000000000000000000000000000000000000cd", ABI: "[]"})
+		pay, _ := json.Marshal(evmtypes.JobPayload{HexPayload: "feedface"})
+		add(u2, &schedtypes.MsgCreateJob{Job: &schedtypes.Job{ID: "job3", Routing: schedtypes.Routing{ChainType: "evm", ChainReferenceID: Ref2}, Definition: def, Payload: pay}, Metadata: world.Meta(u2)})
+	case 141, 143:
+		add(u2, &schedtypes.MsgExecuteJob{JobID: "job3", Metadata: world.Meta(u2)})
 	case 100:
 		add(u1, &evmtypes.MsgRemoveUserSmartContractRequest{Metadata: world.Meta(u1), Id: 1})
 	case 120:
